@@ -2,7 +2,8 @@
    Statements only; every proof is `exact <lemma of Proofs/C08_*.v>`.
    Quantification: every pin value / every decoded protobuf message (fields arbitrary or absent). *)
 From V Require Import Base.Common Base.C08_Str Model.C08_Codec Model.C08_Query Model.C08_Status Model.C08_Equals
-  Proofs.C08_Codec Proofs.C08_Query Proofs.C08_Status Proofs.C08_Equals.
+  Base.C08_Schema Gen.C08Tags Model.C08_Fmap
+  Proofs.C08_Codec Proofs.C08_Query Proofs.C08_Status Proofs.C08_Equals Proofs.C08_Fmap.
 From Coq Require Import Permutation.
 Open Scope string_scope.
 Open Scope Z_scope.
@@ -148,3 +149,67 @@ Example removed_metadata_key_detected :
   let b := mk_opts 1 2 "n" 0 0 [] None [("k", "v")] None [] in
   wf_eq_opts a = true /\ wf_eq_opts b = true /\ opts_equal a b = false /\ opts_equal b a = false /\ opts_equal a a = true.
 Proof. vm_compute. repeat split. Qed.
+
+(* ---- msgpack (RPC, Raft log, state snapshots) and JSON (REST, state export) forms of every API record ---- *)
+
+(* for every struct-tag table whose keys are distinct per struct (no "-" field, no unknown field type) and every codec:
+   a well-formed value of any type over that table is written and read back into a fresh value unchanged *)
+Theorem codec_roundtrip c sch t v : schema_ok c sch = true -> wf_val c sch false t false v = true ->
+  exists w, enc c sch t v = Ok w /\ dec c sch t w = Ok v.
+Proof. exact (fun Hs => codec_roundtrip_l c sch Hs t v). Qed.
+Print Assumptions codec_roundtrip.
+
+(* the table regenerated from api/types.go and api/add.go at this run satisfies the premise, for both codecs *)
+Theorem api_schema_wellformed : schema_ok Msgpack api_schema = true /\ schema_ok Json api_schema = true.
+Proof. vm_compute. split; reflexivity. Qed.
+Print Assumptions api_schema_wellformed.
+
+(* hence every record type T of the API (Pin, PinOptions, PinPath, PinInfo, GlobalPinInfo, ID, IPFSID, Metric, Alert,
+   AddedOutput, RepoGC, GlobalRepoGC, ConnectGraph, ...): msgpack_roundtrip_T and json_roundtrip_T, in one statement each *)
+Theorem msgpack_roundtrip tn v : wf_val Msgpack api_schema false (TStruct tn) false v = true ->
+  exists w, enc Msgpack api_schema (TStruct tn) v = Ok w /\ dec Msgpack api_schema (TStruct tn) w = Ok v.
+Proof. exact (codec_roundtrip_l Msgpack api_schema (proj1 api_schema_wellformed) (TStruct tn) v). Qed.
+Print Assumptions msgpack_roundtrip.
+
+Theorem json_roundtrip tn v : wf_val Json api_schema false (TStruct tn) false v = true ->
+  exists w, enc Json api_schema (TStruct tn) v = Ok w /\ dec Json api_schema (TStruct tn) w = Ok v.
+Proof. exact (codec_roundtrip_l Json api_schema (proj2 api_schema_wellformed) (TStruct tn) v). Qed.
+Print Assumptions json_roundtrip.
+
+(* S19 (finding origins-undecodable): the statement over ALL values that are well-formed for the property is false of the
+   faithful model: pin options with one origin are written by both codecs and rejected by both decoders *)
+Definition opts_with_origin : val :=
+  VRec [VInt 1; VInt 2; VStr "n"; VInt 0; VUint 0; VList []; VTime None; VMap []; VCid None;
+        VList [VAddr (Some "/ip4/1.2.3.4/tcp/4001/p2p/QmPeer")]].
+
+Theorem pin_origins_undecodable_refuted :
+  exists tn v, forall c,
+    wf_val c api_schema true (TStruct tn) false v = true /\
+    exists w, enc c api_schema (TStruct tn) v = Ok w /\ dec c api_schema (TStruct tn) w = Err.
+Proof.
+  exists "PinOptions", opts_with_origin. intros [|]; (split; [vm_compute; reflexivity | eexists; split; vm_compute; reflexivity]).
+Qed.
+Print Assumptions pin_origins_undecodable_refuted.
+
+(* ... and true under the narrowest guard: no element of a bare interface type, i.e. origins = [] *)
+Theorem pin_origins_undecodable_partial c tn v : wf_val c api_schema true (TStruct tn) false v = true ->
+  has_iface api_schema (TStruct tn) v = false ->
+  exists w, enc c api_schema (TStruct tn) v = Ok w /\ dec c api_schema (TStruct tn) w = Ok v.
+Proof.
+  exact (fun W I => codec_roundtrip_guarded_l c api_schema
+           (match c with Msgpack => proj1 api_schema_wellformed | Json => proj2 api_schema_wellformed end) (TStruct tn) v W I).
+Qed.
+Print Assumptions pin_origins_undecodable_partial.
+
+(* non-vacuity: a full pin, a status record with a multi-bit filter and a peer identity are well-formed for both codecs *)
+Example codec_examples :
+  let pinv := VRec [VInt 2; VInt 3; VStr "n"; VInt 1; VUint 7; VList [VPeer (TOk "QmA")]; VTime (Some (1790000000, 5%N));
+                    VMap [("k", VStr "v")]; VCid (Some "QmOld"); VList [];
+                    VCid (Some "QmData"); VUint 2; VList [VPeer (TOk "QmA"); VPeer (TOk "QmB")]; VInt (-1); VPtr (Some (VCid (Some "QmRef")))] in
+  let info := VRec [VCid (Some "QmData"); VStr "n"; VPeer (TOk "QmA"); VStr "peer"; VInt 20; VTime (Some (1790000000, 0%N)); VStr ""] in
+  let idv := VRec [VPeer (TOk "QmA"); VList [VAddr (Some "/ip4/1.2.3.4/tcp/1")]; VList []; VList []; VStr "v"; VStr ""; VStr "/p/1"; VStr "";
+                   VPtr (Some (VRec [VPeer TEmpty; VList []; VStr "no daemon"])); VStr "name"] in
+  forallb (fun c => wf_val c api_schema false (TStruct "Pin") false pinv
+                    && wf_val c api_schema false (TStruct "PinInfo") false info
+                    && wf_val c api_schema false (TStruct "ID") false idv) [Msgpack; Json] = true.
+Proof. vm_compute. reflexivity. Qed.
